@@ -20,7 +20,7 @@ VOCAB = ONEQ + ["RX", "RY", "RZ", "U1", "U2", "U3", "CNOT", "CZ", "SWAP", "TOFFO
                 "UM1", "UM2"]
 
 
-def rand_gate(rng, npr, n, kinds):
+def rand_gate(rng, npr, n, kinds, id0=True):
     for _ in range(50):
         k = rng.choice(kinds)
         need = {"CNOT": 2, "CZ": 2, "SWAP": 2, "UM2": 2, "TOFFOLI": 3}.get(k, 1)
@@ -32,6 +32,9 @@ def rand_gate(rng, npr, n, kinds):
         m = rng.randint(1, min(n, 3))
         qs = rng.sample(range(n), m)
         ids = [rng.randint(1, 3) for _ in qs]
+        if id0 and rng.random() < 0.12:
+            # an identity factor (id 0) is accepted by the gate factories: a transpiler must treat it as the identity or raise
+            ids[rng.randrange(len(ids))] = 0
         return gates.Pauli(qs, ids) if k == "Pauli" else gates.PauliRotation(qs, ids, O.rand_angle(rng))
     qs = rng.sample(range(n), need)
     if k in ("RX", "RY", "RZ", "U1"):
@@ -137,7 +140,7 @@ def clifford_approx_check(res, rng, npr, reps):
         c = QuantumCircuit(n)
         for _ in range(rng.randint(1, 6)):
             c.add_gate(rand_gate(rng, npr, n, ONEQ + ["RX", "RY", "RZ", "U1", "U2", "U3", "CNOT", "CZ", "SWAP",
-                                                       "PauliRotation"]))
+                                                       "PauliRotation"], id0=False))
         ref = QuantumCircuit(n)
         for g in c.gates:
             if g.name == "T":
